@@ -150,6 +150,16 @@ REGISTRY = {
         "assumptions": ["the documented layout is the one written down in coq/Model/Codec.v and MetaJournal.v header comments (README, constants.rs, metadata.rs, allocation_journal.rs)",
                         "golden files were produced by the pinned tree with this harness' genimg workload"],
     },
+    "C15": {
+        "title": "offline migration is a faithful, verified, non-destructive copy",
+        "teq": [
+            {"engine": "migrate", "quick": {"n": 4}, "thorough": {"tier": "thorough"}, "oracle": True, "mismatch_is_failure": True, "timeout": 3400,
+             "nontrivial": lambda case, res: res.startswith("ok") and " n=0 " not in res,
+             "distinct_key": lambda case, res: res + case.split("src=")[-1],
+             "what": "legacy sources produced by the engine itself in v1/v2 compatibility mode (updates, deletes, reuse, TTL; processes killed with active journals and pending retirements, clean closes; up to 700 operations over 400 keys so that several 256-record batches are copied), v3 sources, and sources damaged by the C17 mutators or carrying an ambiguous legacy tombstone; with and without the opt-in; with and without an existing destination. The real migrate() runs in a child process: outcome/error kind, report (source version, records, ambiguous markers), and the destination read back by the real store must equal Model.Migration.migrate_spec of the source image; oracle: source byte-identical, nothing published and no temporary left on failure, an existing destination untouched, destination is v3"}],
+        "nontrivial_rule": "a case is one migration attempt; non-trivial = it succeeded and copied at least one record; distinct by (result line, source kind)",
+        "assumptions": ["the filesystem (create_new, hard_link, directory fsync) is not modelled: publication and rollback are only observed", "the feox-migrate binary is not exercised separately (it calls migrate())"],
+    },
     "C16": {
         "title": "the read cache is transparent and its accounting exact",
         "teq": [
